@@ -131,6 +131,10 @@ def region_shared_source_under_slices(case):
     whether a slice is pushed into a shared node depends on what its other consumers have already become,
     so one optimisation pass need not reach the fixpoint."""
     prog = case["program"]
+    if any(s["op"] in ("pad", "roll", "diff") for s in prog["stmts"]):
+        # these build their result from several slices of ONE input (pad: edge pieces + body; roll: two pieces;
+        # diff: x[1:] - x[:-1]): the same sharing, written by the library instead of the program
+        return True
     return P.shares_variable(prog) and any(s["op"] in ("getitem", "getitem_list", "take") for s in prog["stmts"])
 
 
